@@ -269,11 +269,13 @@ ListHtmlLemma ==
             open == IF ~ordered THEN S("<ul>") ELSE IF mk = <<49, 46>> THEN S("<ol") \o S(">") ELSE S("<ol") \o S(" start=\"") \o <<49, 50>> \o S("\"") \o S(">")
             close == IF ordered THEN S("</ol>") ELSE S("</ul>")
             inner == B!ParseDoc(Src)
-            \* a one-item list is tight unless two of the item's blocks are separated by a blank line: none here (NoBlankLines),
-            \* so paragraphs that are direct children lose their <p>
+            \* the document has no blank line, yet the one-item list may be loose: a blank line INSIDE a nested container that
+            \* ends an empty list item there counts for every enclosing block ("> *" / ">" / "c"); tightness is read off the result
+            q == B!ParseDoc(B!Flatten(ld))
             defs == DefsOf(inner)
         IN B!ThematicBreak(ld[1], 0) \/
-           HtmlOf(B!Flatten(ld)) = << open \o S("<li>") \o BlockSeq(inner, TRUE, Src, defs) \o S("</li>") \o close >>
+           ( Len(q) = 1 /\ q[1].k = "list"
+             /\ HtmlOf(B!Flatten(ld)) = << open \o S("<li>") \o BlockSeq(inner, q[1].t, Src, defs) \o S("</li>") \o close >> )
 \* C14, first clause, on HTML: CRLF and CR line endings give the same HTML up to the line endings that are copied
 EolNorm(h) == LET RECURSIVE F(_) F(i) == IF i > Len(h) THEN <<>>
                                          ELSE IF h[i] = CR /\ i < Len(h) /\ h[i + 1] = LF THEN <<LF>> \o F(i + 2)
